@@ -5,6 +5,7 @@ import GstVerif.LinAlg.Driver
 import GstVerif.Krig.Driver
 import GstVerif.Rng.Driver
 import GstVerif.Neigh.Driver
+import GstVerif.Vario.Driver
 /-
   gstmodel: line-protocol driver.  One request per input line:
       <model> <op> <args…> => <implementation's answer…>
@@ -27,6 +28,7 @@ def dispatch (line : String) : String :=
   | "k" :: args => Krig.handle args impl
   | "r" :: args => Rng.handle args impl
   | "n" :: args => Neigh.handle args impl
+  | "v" :: args => Vario.handle args impl
   | _ => "bad-op"
 
 partial def loop (h : IO.FS.Stream) (out : IO.FS.Stream) : IO Unit := do
